@@ -1,5 +1,445 @@
-import Witverif.Abi.NamesBackends
+import Witverif.Proofs.NamesBackends
+/-!
+# C13 — every backend's core imports/exports match the world's canonical ABI
+
+Property theorems only (helper lemmas: `Proofs/Names.lean`, `Proofs/NamesBackends.lean`).
+Spec side: `Witverif.Abi.Names.Spec` (legacy mangling of wit-parser/wit-component 0.257 + core
+signatures through `wasmSignature`).  Model side: `Witverif.Abi.Names.{C,Rust,Go,D,Cpp,MoonBit,CSharp}`.
+Both are tied to the real crates by `./check C13` (names-run / m_names).
+
+Per backend `b`:
+* `b_import_names`   the module and field name of every import kind `b` emits (function imports
+                     under the selected ABI, `[task-return]`, resource intrinsics, future/stream
+                     intrinsics of every payload site) are the ones the spec assigns to the same item;
+* `b_export_names`   same for exports (function, `[callback]`, `cabi_post_`, `[dtor]`);
+* `b_core_sig`       the core signatures of these declarations are the spec's (`wasmSignature` of the
+                     variant that matches the name prefix, flattened `task.return`, post-return);
+* `b_exports_complete`   every export the world requires is emitted;
+* `b_world_sound`    over the whole world traversal: every emitted import ∈ `Spec.allImports w`, every
+                     emitted export ∈ `Spec.allExports w` (an export outside this set is silently ignored
+                     by the component encoder).
+
+## Full statements that are FALSE of the current code (negations proved below, with witnesses)
+
+    theorem c_dtor_export_name      : ∀ k r, k ≠ .root → ∀ x ∈ C.exportRes k r, x ∈ (Spec.dtor .sync k r).toList
+    theorem cpp_post_return_name    : ∀ k f, ∀ x ∈ Cpp.exportFn k f, x ∈ Spec.exportsOfFn k f
+    theorem csharp_fs_intrinsic_names : every declaration of `CSharp.addFuturesOrStreams` is a name of the world
+    theorem csharp_post_return_name : ∀ k f, asyncOk k f → ∀ x ∈ CSharp.exportFn k f, x ∈ Spec.exportsOfFn k f
+    theorem async_selection_sound   : ∀ k f, (C|Rust|Go|MoonBit).funcImport k f ∈ Spec.importsOfFn k f
+                                      (false when the configuration forces the async ABI on a function whose
+                                       type is not async: wasmparser rejects the `async` canonical option there)
+
+Each has a `…_full_false` theorem and a `…_partial` theorem with the exact extra hypothesis.
+-/
 namespace Witverif.Props.C13
 open Witverif.Abi Witverif.Abi.Names
-theorem placeholder_module_root : Spec.moduleOf .root = "$root" := rfl
+
+/-! ## Specification sanity (non-vacuity of the spec itself) -/
+
+private def idI : Key := .id ⟨"my-ns", "my-pkg", "my-iface", some "1.2.3"⟩
+private def fStr : Func := ⟨false, [.string], some .string⟩
+private def fn (kind : FKind) (res item : String) (wa sel : Bool) (sig : Func) : Fn :=
+  { kind := kind, res := res, item := item, witAsync := wa, sel := sel, sig := sig }
+
+example : Spec.funcImport .asyncCallback idI (fn .method "my-res" "get-it" true true ⟨true, [.borrow], some .string⟩) =
+    ⟨"my-ns:my-pkg/my-iface@1.2.3", "[async-lower][method]my-res.get-it", [.i32, .i32], [.i32]⟩ := by decide
+example : Spec.funcExport .asyncCallback idI (fn .free "" "do-it" true true fStr) .callback =
+    some ⟨"[callback][async-lift]my-ns:my-pkg/my-iface@1.2.3#do-it", [.i32, .i32, .i32], [.i32]⟩ := by decide
+example : Spec.dtor .sync idI "my-res" = some ⟨"my-ns:my-pkg/my-iface@1.2.3#[dtor]my-res", [.i32], []⟩ := by decide
+example : Spec.fsIntrinsic .root "f" true (.idx 2) .cancelRead true false =
+    some ⟨"[export]$root", "[stream-cancel-read-2]f", [.i32], [.i32]⟩ := by decide
+example : (fn .free "" "f" false false ⟨false, [.future (some (.future (some .u32))), .u32], some (.stream (some .u8))⟩).sites =
+    [⟨false, false⟩, ⟨false, false⟩, ⟨true, false⟩] := by decide
+
+/-! ## C -/
+
+theorem c_import_names (k : Key) (f : Fn) :
+    (C.funcImport k f).module = (Spec.funcImport (Spec.abiOf f) k f).module ∧
+    (C.funcImport k f).name = (Spec.funcImport (Spec.abiOf f) k f).name ∧
+    (C.taskReturn k f).module = (Spec.taskReturn k f).module ∧
+    (C.taskReturn k f).name = (Spec.taskReturn k f).name ∧
+    (∀ r, some (C.resourceDropImport k r) = Spec.resourceIntrinsic .sync k r .importedDrop) ∧
+    (∀ exported, ∀ d ∈ C.fs (if exported then "[export]" else "") k f,
+      ∃ stream ix op a, Spec.siteOk f stream ix = true ∧
+        Spec.fsIntrinsic k f.name stream ix op exported a = some d) := by
+  refine ⟨by rw [C.funcImport_eq], by rw [C.funcImport_eq], by rw [C.taskReturn_eq], by rw [C.taskReturn_eq], ?_, ?_⟩
+  · intro r; rw [spec_importedDrop]; rfl
+  · exact fun e => C.fs_names k f e
+
+theorem c_export_names (k : Key) (f : Fn) :
+    Spec.funcExport (Spec.abiOf f) k f .normal = some (C.mainExport k f) ∧
+    (f.sel = true → Spec.funcExport .asyncCallback k f .callback = some (C.callbackExport k f)) ∧
+    (f.sel = false → Spec.funcExport .sync k f .postReturn = some (C.postReturnExport k f)) :=
+  ⟨C.mainExport_eq k f, C.callbackExport_eq k f, C.postReturnExport_eq k f⟩
+
+theorem c_core_sig (k : Key) (f : Fn) :
+    (C.funcImport k f).params = norm (wasmSignature (Spec.abiOf f).importVariant f.sig).params ∧
+    (C.funcImport k f).results = norm (wasmSignature (Spec.abiOf f).importVariant f.sig).results ∧
+    (C.mainExport k f).params = norm (wasmSignature (Spec.abiOf f).exportVariant f.sig).params ∧
+    (C.mainExport k f).results = norm (wasmSignature (Spec.abiOf f).exportVariant f.sig).results ∧
+    (C.taskReturn k f).params = (Spec.taskReturn k f).params ∧ (C.taskReturn k f).results = [] := by
+  have h1 := C.funcImport_eq k f
+  have h2 := C.mainExport_eq k f
+  have h3 := C.taskReturn_eq k f
+  refine ⟨by rw [h1]; rfl, by rw [h1]; rfl, ?_, ?_, by rw [h3], rfl⟩
+  · simp only [Spec.funcExport, Option.some.injEq] at h2; rw [← h2]
+  · simp only [Spec.funcExport, Option.some.injEq] at h2; rw [← h2]
+
+/-- FULL STATEMENT (false): C's destructor export carries the component model's name. -/
+def CDtorExportName : Prop :=
+  ∀ k r, k ≠ Key.root → ∀ x ∈ C.exportRes k r, x ∈ (Spec.dtor .sync k r).toList
+
+/-- class `c-dtor-export-snake-case`: resource `my-res` of interface `t:t/i` is exported as
+`t:t/i#[dtor]my_res`; the component model expects `t:t/i#[dtor]my-res`. -/
+theorem c_dtor_export_name_full_false : ¬ CDtorExportName := by
+  intro h
+  have := h (.id ⟨"t", "t", "i", none⟩) "my-res" (by decide)
+    ⟨"t:t/i#[dtor]my_res", [.i32], []⟩ (by decide)
+  revert this; decide
+
+theorem c_dtor_export_name_partial (k : Key) (r : String) (hk : k ≠ .root) (hr : C.snake r = r) :
+    ∀ x ∈ C.exportRes k r, x ∈ (Spec.dtor .sync k r).toList := by
+  intro x hx
+  obtain ⟨m, hm⟩ := worldKey_of_ne_root hk
+  simp only [C.exportRes, hm, List.mem_cons, List.not_mem_nil, or_false] at hx
+  subst hx
+  rw [spec_dtor hm]; simp [C.dtorExport, hr]
+
+/-- single-word lower-case resource names satisfy the hypothesis of `c_dtor_export_name_partial` -/
+theorem c_dtor_single_word (r : String) (h : ∀ c ∈ r.toList, Witverif.Text.Heck.lod c = true) (hne : r ≠ "") :
+    C.snake r = r := C.snake_single_word r h hne
+
+example : C.snake "res2" = "res2" := by decide
+example : C.exportRes idI "res" = [⟨"my-ns:my-pkg/my-iface@1.2.3#[dtor]res", [.i32], []⟩] := by decide
+
+theorem c_world_sound (w : World) (hw : w.WF asyncOk C.okRes) :
+    (∀ d ∈ C.emit.imports w, d.imp ∈ Spec.allImports w) ∧ (∀ x ∈ C.emit.exports w, x ∈ Spec.allExports w) :=
+  ⟨Emit.imports_sound C.sound w hw, Emit.exports_sound C.sound w hw⟩
+
+theorem c_exports_complete (w : World) (hw : w.WF (fun _ _ => True) (fun _ _ => True)) :
+    ∀ x ∈ Spec.requiredExports w, x ∈ C.emit.exports w :=
+  Emit.exports_complete (fun k f _ => C.complete k f) w hw
+
+/-! ## Rust -/
+
+theorem rust_import_names (k : Key) (f : Fn) :
+    (Rust.funcImport k f).module = (Spec.funcImport (Spec.abiOf f) k f).module ∧
+    (Rust.funcImport k f).name = (Spec.funcImport (Spec.abiOf f) k f).name ∧
+    (Rust.taskReturn k f).module = (Spec.taskReturn k f).module ∧
+    (Rust.taskReturn k f).name = (Spec.taskReturn k f).name ∧
+    (∀ exported, ∀ d ∈ Rust.fs (if exported then "[export]" else "") k f,
+      ∃ stream ix op a, Spec.siteOk f stream ix = true ∧
+        Spec.fsIntrinsic k f.name stream ix op exported a = some d) :=
+  ⟨by rw [Rust.funcImport_eq], by rw [Rust.funcImport_eq], by rw [Rust.taskReturn_eq], by rw [Rust.taskReturn_eq],
+   fun e => Rust.fs_names k f e⟩
+
+theorem rust_export_names (k : Key) (f : Fn) :
+    Spec.funcExport (Spec.abiOf f) k f .normal = some (Rust.mainExport k f) ∧
+    (f.sel = true → Spec.funcExport .asyncCallback k f .callback = some (Rust.callbackExport k f)) ∧
+    (f.sel = false → Spec.funcExport .sync k f .postReturn = some (Rust.postReturnExport k f)) ∧
+    (∀ r m, k.worldKey = some m → Rust.exportRes k r = (Spec.dtor .sync k r).toList) := by
+  refine ⟨Rust.mainExport_eq k f, Rust.callbackExport_eq k f, Rust.postReturnExport_eq k f, ?_⟩
+  intro r m hm
+  rw [spec_dtor hm]; simp [Rust.exportRes, hm, Rust.norm_ptr]
+
+theorem rust_core_sig (k : Key) (f : Fn) :
+    (Rust.funcImport k f).params = norm (wasmSignature (Spec.abiOf f).importVariant f.sig).params ∧
+    (Rust.funcImport k f).results = norm (wasmSignature (Spec.abiOf f).importVariant f.sig).results ∧
+    (Rust.mainExport k f).params = norm (wasmSignature (Spec.abiOf f).exportVariant f.sig).params ∧
+    (Rust.mainExport k f).results = norm (wasmSignature (Spec.abiOf f).exportVariant f.sig).results ∧
+    (Rust.taskReturn k f).params = (Spec.taskReturn k f).params := by
+  have h1 := Rust.funcImport_eq k f
+  have h2 := Rust.mainExport_eq k f
+  refine ⟨by rw [h1]; rfl, by rw [h1]; rfl, ?_, ?_, by rw [Rust.taskReturn_eq]⟩
+  · simp only [Spec.funcExport, Option.some.injEq] at h2; rw [← h2]
+  · simp only [Spec.funcExport, Option.some.injEq] at h2; rw [← h2]
+
+theorem rust_world_sound (w : World) (hw : w.WF asyncOk (fun _ _ => True)) :
+    (∀ d ∈ Rust.emit.imports w, d.imp ∈ Spec.allImports w) ∧ (∀ x ∈ Rust.emit.exports w, x ∈ Spec.allExports w) :=
+  ⟨Emit.imports_sound Rust.sound w hw, Emit.exports_sound Rust.sound w hw⟩
+
+theorem rust_exports_complete (w : World) (hw : w.WF (fun _ _ => True) (fun _ _ => True)) :
+    ∀ x ∈ Spec.requiredExports w, x ∈ Rust.emit.exports w :=
+  Emit.exports_complete (fun k f _ => Rust.complete k f) w hw
+
+/-! ## Go -/
+
+theorem go_import_names (k : Key) (f : Fn) :
+    (Go.funcImport k f).module = (Spec.funcImport (Spec.abiOf f) k f).module ∧
+    (Go.funcImport k f).name = (Spec.funcImport (Spec.abiOf f) k f).name ∧
+    (Go.taskReturn k f).module = (Spec.taskReturn k f).module ∧
+    (Go.taskReturn k f).name = (Spec.taskReturn k f).name ∧
+    (∀ exported, ∀ d ∈ Go.fs (!exported) k f,
+      ∃ stream ix op a, Spec.siteOk f stream ix = true ∧
+        Spec.fsIntrinsic k f.name stream ix op exported a = some d) :=
+  ⟨by rw [Go.funcImport_eq], by rw [Go.funcImport_eq], by rw [Go.taskReturn_eq], by rw [Go.taskReturn_eq],
+   fun e => Go.fs_names k f e⟩
+
+theorem go_export_names (k : Key) (f : Fn) :
+    Spec.funcExport (Spec.abiOf f) k f .normal = some (Go.mainExport k f) ∧
+    (f.sel = true → Spec.funcExport .asyncCallback k f .callback = some (Go.callbackExport k f)) ∧
+    (f.sel = false → Spec.funcExport .sync k f .postReturn = some (Go.postReturnExport k f)) ∧
+    (∀ r m, k.worldKey = some m → Go.exportRes k r = (Spec.dtor .sync k r).toList) := by
+  refine ⟨Go.mainExport_eq k f, Go.callbackExport_eq k f, Go.postReturnExport_eq k f, ?_⟩
+  intro r m hm
+  rw [spec_dtor hm]; simp [Go.exportRes, rootOr_of_worldKey hm]
+
+theorem go_core_sig (k : Key) (f : Fn) :
+    (Go.funcImport k f).params = norm (wasmSignature (Spec.abiOf f).importVariant f.sig).params ∧
+    (Go.funcImport k f).results = norm (wasmSignature (Spec.abiOf f).importVariant f.sig).results ∧
+    (Go.mainExport k f).params = norm (wasmSignature (Spec.abiOf f).exportVariant f.sig).params ∧
+    (Go.mainExport k f).results = norm (wasmSignature (Spec.abiOf f).exportVariant f.sig).results ∧
+    (Go.taskReturn k f).params = (Spec.taskReturn k f).params := by
+  have h1 := Go.funcImport_eq k f
+  have h2 := Go.mainExport_eq k f
+  refine ⟨by rw [h1]; rfl, by rw [h1]; rfl, ?_, ?_, by rw [Go.taskReturn_eq]⟩
+  · simp only [Spec.funcExport, Option.some.injEq] at h2; rw [← h2]
+  · simp only [Spec.funcExport, Option.some.injEq] at h2; rw [← h2]
+
+theorem go_world_sound (w : World) (hw : w.WF asyncOk (fun _ _ => True)) :
+    (∀ d ∈ Go.emit.imports w, d.imp ∈ Spec.allImports w) ∧ (∀ x ∈ Go.emit.exports w, x ∈ Spec.allExports w) :=
+  ⟨Emit.imports_sound Go.sound w hw, Emit.exports_sound Go.sound w hw⟩
+
+theorem go_exports_complete (w : World) (hw : w.WF (fun _ _ => True) (fun _ _ => True)) :
+    ∀ x ∈ Spec.requiredExports w, x ∈ Go.emit.exports w :=
+  Emit.exports_complete (fun k f _ => Go.complete k f) w hw
+
+/-! ## D (no async support: the side condition of completeness is `sel = false`) -/
+
+theorem d_import_names (k : Key) (f : Fn) : D.funcImport k f = Spec.funcImport .sync k f := D.funcImport_eq k f
+
+theorem d_export_names (k : Key) (f : Fn) :
+    Spec.funcExport .sync k f .normal = some (D.mainExport k f) ∧
+    Spec.funcExport .sync k f .postReturn = some (D.postReturnExport k f) ∧
+    (∀ r m, k.worldKey = some m → D.exportRes k r = (Spec.dtor .sync k r).toList) := by
+  refine ⟨D.mainExport_eq k f, D.postReturnExport_eq k f, ?_⟩
+  intro r m hm
+  rw [spec_dtor hm]; simp [D.exportRes, rootOr_of_worldKey hm]
+
+theorem d_core_sig (k : Key) (f : Fn) :
+    (D.funcImport k f).params = norm (wasmSignature .guestImport f.sig).params ∧
+    (D.funcImport k f).results = norm (wasmSignature .guestImport f.sig).results ∧
+    (D.mainExport k f).params = norm (wasmSignature .guestExport f.sig).params ∧
+    (D.mainExport k f).results = norm (wasmSignature .guestExport f.sig).results := ⟨rfl, rfl, rfl, rfl⟩
+
+theorem d_world_sound (w : World) (hw : w.WF (fun _ _ => True) (fun _ _ => True)) :
+    (∀ d ∈ D.emit.imports w, d.imp ∈ Spec.allImports w) ∧ (∀ x ∈ D.emit.exports w, x ∈ Spec.allExports w) :=
+  ⟨Emit.imports_sound D.sound w hw, Emit.exports_sound D.sound w hw⟩
+
+theorem d_exports_complete (w : World) (hw : w.WF (fun _ f => f.sel = false) (fun _ _ => True)) :
+    ∀ x ∈ Spec.requiredExports w, x ∈ D.emit.exports w :=
+  Emit.exports_complete (fun k f hs => D.complete k f hs) w hw
+
+/-! ## C++ (no async support) -/
+
+theorem cpp_import_names (k : Key) (f : Fn) : Cpp.funcImport k f = Spec.funcImport .sync k f := Cpp.funcImport_eq k f
+
+/-- FULL STATEMENT (false): every export C++ emits for a function is a name of the world. -/
+def CppPostReturnName : Prop := ∀ k f, ∀ x ∈ Cpp.exportFn k f, x ∈ Spec.exportsOfFn k f
+
+/-- class `cpp-world-post-return-mangled`: world-level `export run-it: func() -> string` gets the
+post-return export `cabi_post_run_it`; the component model expects `cabi_post_run-it`. -/
+theorem cpp_post_return_name_full_false : ¬ CppPostReturnName := by
+  intro h
+  have := h .root (fn .free "" "run-it" false false ⟨false, [], some .string⟩)
+    ⟨"cabi_post_run_it", [.i32], []⟩ (by decide)
+  revert this; decide
+
+theorem cpp_export_names (k : Key) (f : Fn) :
+    Spec.funcExport .sync k f .normal = some (Cpp.mainExport k f) ∧
+    ((k = .root → Cpp.makeExternalComponent f.name = f.name) →
+      Spec.funcExport .sync k f .postReturn = some (Cpp.postReturnExport k f)) :=
+  ⟨Cpp.mainExport_eq k f, Cpp.postReturnExport_eq k f⟩
+
+theorem cpp_post_return_name_partial (k : Key) (f : Fn) (h : Cpp.okFn k f) :
+    ∀ x ∈ Cpp.exportFn k f, x ∈ Spec.exportsOfFn k f := Cpp.exportFn_sound k f h
+
+example : Cpp.okFn .root (fn .free "" "run" false false ⟨false, [], some .string⟩) := by
+  intro _ _; decide
+example : Cpp.okFn idI (fn .free "" "run-it" false false ⟨false, [], some .string⟩) := by
+  intro h; exact absurd h (by decide)
+
+theorem cpp_core_sig (k : Key) (f : Fn) :
+    (Cpp.funcImport k f).params = norm (wasmSignature .guestImport f.sig).params ∧
+    (Cpp.funcImport k f).results = norm (wasmSignature .guestImport f.sig).results ∧
+    (Cpp.mainExport k f).params = norm (wasmSignature .guestExport f.sig).params ∧
+    (Cpp.mainExport k f).results = norm (wasmSignature .guestExport f.sig).results := ⟨rfl, rfl, rfl, rfl⟩
+
+theorem cpp_world_sound (w : World) (hw : w.WF Cpp.okFn (fun _ _ => True)) :
+    (∀ d ∈ Cpp.emit.imports w, d.imp ∈ Spec.allImports w) ∧ (∀ x ∈ Cpp.emit.exports w, x ∈ Spec.allExports w) :=
+  ⟨Emit.imports_sound Cpp.sound w hw, Emit.exports_sound Cpp.sound w hw⟩
+
+theorem cpp_exports_complete (w : World) (hw : w.WF (fun _ f => f.sel = false) (fun _ _ => True)) :
+    ∀ x ∈ Spec.requiredExports w, x ∈ Cpp.emit.exports w :=
+  Emit.exports_complete (fun k f hs => Cpp.complete k f hs) w hw
+
+/-! ## MoonBit -/
+
+theorem moonbit_import_names (k : Key) (f : Fn) (ht : MoonBit.tidsOk f) :
+    (∀ d ∈ MoonBit.importFn k f, d.must = true → d.imp = Spec.funcImport (Spec.abiOf f) k f) ∧
+    (∀ exported, ∀ d ∈ MoonBit.fs exported k f, d ∈ Spec.fsAll k f exported) := by
+  refine ⟨?_, fun e => MoonBit.fs_sound k f e ht⟩
+  intro d hd hm
+  simp only [MoonBit.importFn, List.mem_cons, List.mem_map] at hd
+  rcases hd with rfl | ⟨i, _, rfl⟩
+  · rfl
+  · simp [opt] at hm
+
+theorem moonbit_export_names (k : Key) (f : Fn) (hok : asyncOk k f) :
+    ∀ x ∈ MoonBit.exportFn k f, x ∈ Spec.exportsOfFn k f := MoonBit.exportFn_sound k f hok
+
+theorem moonbit_world_sound (w : World) (hw : w.WF MoonBit.okFn (fun _ _ => True)) :
+    (∀ d ∈ MoonBit.emit.imports w, d.imp ∈ Spec.allImports w) ∧
+    (∀ x ∈ MoonBit.emit.exports w, x ∈ Spec.allExports w) :=
+  ⟨Emit.imports_sound MoonBit.sound w hw, Emit.exports_sound MoonBit.sound w hw⟩
+
+theorem moonbit_exports_complete (w : World) (hw : w.WF (fun _ _ => True) (fun _ _ => True)) :
+    ∀ x ∈ Spec.requiredExports w, x ∈ MoonBit.emit.exports w :=
+  Emit.exports_complete (fun k f _ => MoonBit.complete k f) w hw
+
+/-! ## C# -/
+
+theorem csharp_import_names (k : Key) (f : Fn) :
+    CSharp.funcImport k f = Spec.funcImport (Spec.abiOf f) k f ∧ CSharp.taskReturn k f = Spec.taskReturn k f :=
+  ⟨CSharp.funcImport_eq k f, CSharp.taskReturn_eq k f⟩
+
+theorem csharp_export_names (k : Key) (f : Fn) :
+    Spec.funcExport (Spec.abiOf f) k f .normal = some (CSharp.mainExport k f) ∧
+    (f.sel = true → Spec.funcExport .asyncCallback k f .callback = some (CSharp.callbackExport k f)) ∧
+    (f.sel = false → Spec.funcExport .sync k f .postReturn = some (CSharp.postReturnExport k f)) :=
+  ⟨CSharp.mainExport_eq k f, CSharp.callbackExport_eq k f, CSharp.postReturnExport_eq k f⟩
+
+/-- FULL STATEMENT (false): under a valid async selection every export C# emits is a name of the world. -/
+def CSharpPostReturnName : Prop :=
+  ∀ k f, asyncOk k f → ∀ x ∈ CSharp.exportFn k f, x ∈ Spec.exportsOfFn k f
+
+/-- class `csharp-async-post-return-ignored`: `export get: async func() -> string` additionally
+exports `cabi_post_[async-lift]get`, which the component encoder silently ignores. -/
+theorem csharp_post_return_name_full_false : ¬ CSharpPostReturnName := by
+  intro h
+  have := h .root (fn .free "" "get" true true ⟨false, [], some .string⟩) (by intro _; rfl)
+    ⟨"cabi_post_[async-lift]get", [.i32], []⟩ (by decide)
+  revert this; decide
+
+theorem csharp_post_return_name_partial (k : Key) (f : Fn) (h : CSharp.okFn k f) :
+    ∀ x ∈ CSharp.exportFn k f, x ∈ Spec.exportsOfFn k f := CSharp.exportFn_sound k f h
+
+/-- the loop of `add_futures_or_streams` numbers the *generated entries* (first occurrence of each
+payload key in lift/lower order, per interface and per kind), not the payload sites of a function -/
+theorem csharp_fs_index_is_generation_count (module : String) (stream : Bool) (infos : List CSharp.FutureInfo) :
+    CSharp.addFuturesOrStreams module stream infos =
+      ((CSharp.generated infos []).zipIdx 0).flatMap
+        (fun p => CSharp.fsDecls module (kindStr stream) stream p.2 p.1.name) :=
+  CSharp.fsLoop_eq module stream infos [] 0
+
+private def csW : World :=
+  ⟨[.iface ⟨.name "i", [fn .free "" "f1" false false ⟨false, [.future (some .u32)], none⟩,
+                         fn .free "" "f2" false false ⟨false, [.future (some .string)], none⟩], []⟩], []⟩
+
+/-- FULL STATEMENT (false) on a witness world: `interface i { f1: func(x: future<u32>); f2: func(y: future<string>); }`
+imported.  The second generated entry is numbered 1 although `f2` has a single payload site (index 0):
+class `csharp-future-stream-intrinsic-names`. -/
+theorem csharp_fs_intrinsic_names_full_false :
+    ¬ ∀ d ∈ CSharp.addFuturesOrStreams "i" false [⟨"f1", 0⟩, ⟨"f2", 1⟩], d ∈ Spec.allImports csW := by
+  intro h
+  have := h ⟨"i", "[future-new-1]f2", [], [.i64]⟩ (by decide)
+  revert this; decide
+
+/-- … and the eighth declaration of every entry (`drop-writeable`) is never a name of the world -/
+theorem csharp_drop_writeable_not_a_name :
+    (⟨"i", "[future-drop-writeable-0]f1", [.i32], []⟩ : Imp) ∈ CSharp.addFuturesOrStreams "i" false [⟨"f1", 0⟩] ∧
+    (⟨"i", "[future-drop-writeable-0]f1", [.i32], []⟩ : Imp) ∉ Spec.allImports csW := by decide
+
+/-- what does hold: the first seven declarations of an entry are the spec's names *for index
+`index` of a function called `name`* — right exactly when the generation count happens to be the
+site position and the recorded name is the function's full name -/
+theorem csharp_fs_intrinsic_names_partial (k : Key) (name : String) (exported stream : Bool) (index : Nat) :
+    ∀ d ∈ (CSharp.fsDecls ((if exported then "[export]" else "") ++ rootOr k) (kindStr stream) stream index name).take 7,
+      ∃ op a, Spec.fsIntrinsic k name stream (.idx index) op exported a = some d :=
+  CSharp.fsDecls_take7_spec k name exported stream index
+
+theorem csharp_core_sig (k : Key) (f : Fn) :
+    (CSharp.funcImport k f).params = norm (wasmSignature (Spec.abiOf f).importVariant f.sig).params ∧
+    (CSharp.mainExport k f).params = norm (wasmSignature (Spec.abiOf f).exportVariant f.sig).params ∧
+    (CSharp.mainExport k f).results = norm (wasmSignature (Spec.abiOf f).exportVariant f.sig).results := by
+  have h1 := CSharp.funcImport_eq k f
+  have h2 := CSharp.mainExport_eq k f
+  refine ⟨by rw [h1]; rfl, ?_, ?_⟩
+  · simp only [Spec.funcExport, Option.some.injEq] at h2; rw [← h2]
+  · simp only [Spec.funcExport, Option.some.injEq] at h2; rw [← h2]
+
+theorem csharp_world_sound (w : World) (hw : w.WF CSharp.okFn (fun _ _ => True)) :
+    (∀ d ∈ CSharp.emit.imports w, d.imp ∈ Spec.allImports w) ∧ (∀ x ∈ CSharp.emit.exports w, x ∈ Spec.allExports w) :=
+  ⟨Emit.imports_sound CSharp.sound w hw, Emit.exports_sound CSharp.sound w hw⟩
+
+theorem csharp_exports_complete (w : World) (hw : w.WF (fun _ _ => True) (fun _ _ => True)) :
+    ∀ x ∈ Spec.requiredExports w, x ∈ CSharp.emit.exports w :=
+  Emit.exports_complete (fun k f _ => CSharp.complete k f) w hw
+
+/-! ## The async selection (all generators that take `--async`) -/
+
+/-- FULL STATEMENT (false): whatever the configuration selects, the function import is a name of the world. -/
+def AsyncSelectionSound : Prop := ∀ k f, C.funcImport k f ∈ Spec.importsOfFn k f
+
+/-- class `async-abi-forced-on-sync-function`: `--async=all` on `import f: func(x: u32) -> u32`
+binds `[async-lower]f`; the component model only allows the async ABI for `async func` types
+(wasmparser: "the `async` canonical option requires an async function type"). -/
+theorem async_selection_sound_full_false : ¬ AsyncSelectionSound := by
+  intro h
+  have := h .root (fn .free "" "f" false true ⟨false, [.u32], some .u32⟩)
+  revert this; decide
+
+theorem async_selection_sound_partial (k : Key) (f : Fn) (h : asyncOk k f) :
+    C.funcImport k f ∈ Spec.importsOfFn k f ∧ Rust.funcImport k f ∈ Spec.importsOfFn k f ∧
+    Go.funcImport k f ∈ Spec.importsOfFn k f := by
+  have key : Spec.funcImport (Spec.abiOf f) k f ∈ Spec.importsOfFn k f := by
+    unfold Spec.abiOf
+    cases hs : f.sel with
+    | false => simpa using mem_importsOfFn_sync
+    | true => simpa using mem_importsOfFn_async (h hs)
+  exact ⟨by rw [C.funcImport_eq]; exact key, by rw [Rust.funcImport_eq]; exact key, by rw [Go.funcImport_eq]; exact key⟩
+
+/-! ## Non-vacuity of the world-level theorems: a world with every item kind -/
+
+private def exW : World :=
+  ⟨[.iface ⟨idI, [fn .method "res" "get-it" false false ⟨true, [.borrow], some .string⟩,
+                  fn .free "" "go-async" true true ⟨false, [.future (some (.future (some .u32))), .stream none], some (.stream (some .u8))⟩],
+           ["res"]⟩,
+    .func (fn .free "" "top-fn" false false ⟨false, [.u32], some .string⟩),
+    .rtype "rr"],
+   [.iface ⟨.name "exp-inl", [fn .free "" "g-h" false false fStr,
+                              fn .ctor "res" "constructor" false false ⟨false, [.u32], some .own⟩], ["res"]⟩,
+    .func (fn .free "" "run" true true ⟨false, [.list .u8], some (.list .u8)⟩)]⟩
+
+/-- the example world satisfies the side conditions of `c_world_sound` (non-vacuity) -/
+theorem example_world_wf : exW.WF asyncOk C.okRes where
+  ifaceKey := by
+    intro it hit i h
+    simp only [exW, List.cons_append, List.nil_append, List.mem_cons, List.not_mem_nil, or_false] at hit
+    rcases hit with rfl | rfl | rfl | rfl | rfl <;> simp_all <;> subst h <;> decide
+  fnI := by
+    intro it hit i h f hf
+    simp only [exW, List.cons_append, List.nil_append, List.mem_cons, List.not_mem_nil, or_false] at hit
+    rcases hit with rfl | rfl | rfl | rfl | rfl <;> simp_all <;> subst h <;>
+      simp only [List.mem_cons, List.not_mem_nil, or_false] at hf <;>
+      rcases hf with rfl | rfl <;> intro hs <;> first | rfl | exact absurd hs (by decide)
+  fnW := by
+    intro it hit f h
+    simp only [exW, List.cons_append, List.nil_append, List.mem_cons, List.not_mem_nil, or_false] at hit
+    rcases hit with rfl | rfl | rfl | rfl | rfl <;> simp_all <;> subst h <;> intro hs <;>
+      first | rfl | exact absurd hs (by decide)
+  resI := by
+    intro it hit i h r hr
+    simp only [exW, List.mem_cons, List.not_mem_nil, or_false] at hit
+    rcases hit with rfl | rfl <;> simp_all
+    subst h
+    simp only [List.mem_cons, List.not_mem_nil, or_false] at hr
+    subst hr; show C.snake "res" = "res"; decide
+
+example : (∀ d ∈ C.emit.imports exW, d.imp ∈ Spec.allImports exW) ∧ (∀ x ∈ C.emit.exports exW, x ∈ Spec.allExports exW) :=
+  c_world_sound exW example_world_wf
+example : (C.emit.exports exW).length = 7 ∧ (C.emit.imports exW).length ≥ 40 := by decide
+example : (⟨"[callback][async-lift]run", [.i32, .i32, .i32], [.i32]⟩ : Exp) ∈ Spec.requiredExports exW := by decide
+example : (⟨"exp-inl#[dtor]res", [.i32], []⟩ : Exp) ∈ C.emit.exports exW := by decide
+
 end Witverif.Props.C13
